@@ -155,6 +155,35 @@ pub fn print_path(p: &JPath) -> String {
     print_steps(&p.0)
 }
 
+/// The same path written with as few parentheses as the documented precedence allows (`&&` binds
+/// tighter than `||`; both are associative in meaning): `a || b && c` for Or(a, And(b, c)).
+/// It denotes the same items, though chains of one operator may come back grouped differently.
+pub fn print_path_min_parens(p: &JPath) -> String {
+    fn ex(e: &Expr) -> String {
+        match e {
+            Expr::And(l, r) => {
+                let side = |x: &Expr| if matches!(x, Expr::Or(..)) { format!("({})", ex(x)) } else { ex(x) };
+                format!("{} && {}", side(l), side(r))
+            }
+            Expr::Or(l, r) => format!("{} || {}", ex(l), ex(r)),
+            Expr::Exists(p) => format!("exists({})", steps(p)),
+            Expr::Paths(p) => steps(p),
+            Expr::Cmp(c, l, r) => format!("{} {} {}", ex(l), print_cmp(*c), ex(r)),
+            other => print_expr(other),
+        }
+    }
+    fn steps(v: &[Step]) -> String {
+        v.iter()
+            .map(|s| match s {
+                Step::Filter(e) => format!("?({})", ex(e)),
+                Step::Predicate(e) => ex(e),
+                other => print_step(other),
+            })
+            .collect()
+    }
+    steps(&p.0)
+}
+
 // ---------------------------------------------------------------------------------------------
 // evaluator
 
